@@ -129,3 +129,6 @@ func (m *Nitro) VerifRetired() []uint32 {
 	}
 	return sns
 }
+
+// VerifSetRefreshRate sets the iterator refresh rate the Visitor (and so StoreToDisk) uses.
+func (m *Nitro) VerifSetRefreshRate(rate int) { m.refreshRate = rate }
